@@ -33,7 +33,10 @@ void checkRing(Case& c, R& r, const std::deque<int>& m, unsigned CS, bool tracke
       // random access on the ring iterator
       c.eq("iterator-plus-index", val(*(r.begin() + (ptrdiff_t)i)), m[i]);
       c.eq("iterator-end-minus", val(*(r.end() - (ptrdiff_t)(m.size() - i))), m[i]);
-      c.eq("iterator-subscript", val(r.begin()[(ptrdiff_t)i]), m[i]);
+      {
+        typename R::value_type sub = r.begin()[(ptrdiff_t)i]; // (boost's operator[] may return a proxy)
+        c.eq("iterator-subscript", val(sub), m[i]);
+      }
     }
   }
   if (c.bad)
@@ -348,21 +351,31 @@ void runBag(Case& c, const char* name) {
 
 } // namespace
 
+// 12-, 20- and 24-byte elements: chunk sizes 3 and 8
+template <typename T>
+void ringOdd(Case& c, unsigned cs, bool mid, unsigned nops) {
+  if (cs == 3)
+    return ringT<T, 3>(c, mid, nops);
+  return ringT<T, 8>(c, mid, nops);
+}
+
 void run_FixedSizeRing(Case& c) {
-  unsigned cs   = c.rng.pick({1u, 2u, 3u, 3u, 4u, 4u, 8u, 64u});
-  bool tracked  = c.rng.below(3) != 0;
+  static const char* EN[] = {"tracked", "pod", "tracked12", "pod20", "tracked24"};
+  unsigned elem = c.rng.below(4) ? (c.rng.below(3) != 0 ? 0u : 1u) : 2 + (unsigned)c.rng.below(3);
+  unsigned cs   = elem < 2 ? c.rng.pick({1u, 2u, 3u, 3u, 4u, 4u, 8u, 64u}) : c.rng.pick({3u, 8u});
   bool mid      = c.rng.below(2) == 0;
   unsigned nops = c.pickOps();
-  std::string cfg =
-      "cs" + std::to_string(cs) + (tracked ? "|tracked" : "|pod") + (mid ? "|mid" : "|ends");
+  std::string cfg = "cs" + std::to_string(cs) + "|" + EN[elem] + (mid ? "|mid" : "|ends");
   if (!c.begin("FixedSizeRing", cfg,
-          J().kv("chunk", cs).kv("elem", tracked ? "tracked" : "pod").kv("emplace_in_middle", mid)
-              .kv("nops", nops)))
+               J().kv("chunk", cs).kv("elem", EN[elem]).kv("emplace_in_middle", mid).kv("nops", nops)))
     return;
-  if (tracked)
-    ringCS<Tracked>(c, cs, mid, nops);
-  else
-    ringCS<Pod>(c, cs, mid, nops);
+  switch (elem) {
+  case 0: return ringCS<Tracked>(c, cs, mid, nops);
+  case 1: return ringCS<Pod>(c, cs, mid, nops);
+  case 2: return ringOdd<Tracked12>(c, cs, mid, nops);
+  case 3: return ringOdd<Pod20>(c, cs, mid, nops);
+  default: return ringOdd<Tracked24>(c, cs, mid, nops);
+  }
 }
 
 void run_FixedSizeBag(Case& c) { runBag<false>(c, "FixedSizeBag"); }
